@@ -344,6 +344,17 @@ def check(repo, rep):
         rep.ob('F5: the tokenizer worker itself is the input of split() (so that read() can inject the stop)', okin and not v[2], W(d['node']), 'TokenizerWorker.__init__:split-input', 'split call %s' % show(v)[:120])
     obs_f = [f for f, ds in tdefs.items() if any(any(x == ('p', 'observers') for x in walk(d['value'])) for d in ds)]
     det_f = [f for f, ds in tdefs.items() if any(d['method'] == '__init__' and d['value'] == ('list', ()) for d in ds)]
+    # the worker keeps the caller's list of observers -- the very object, which the caller may still extend before start_all() (there is
+    # no add_observer()): a default list only when NONE was given.  `observers or []` replaces an explicitly empty list by a private one
+    for f in obs_f:
+        for d in tdefs[f]:
+            v_ = d['value']
+            if v_[0] in ('or', 'and') and any(x == ('p', 'observers') for x in v_[1]) and any(x[0] in ('list', 'tuple') or (x[0] == 'call' and x[1] in (('b', 'list'), ('b', 'tuple'))) for x in v_[1]):
+                rep.ob('F6: the worker keeps the list of observers it was given (a default only when none was given, not when it is empty)', False, W(d['node']), 'TokenizerWorker.__init__:observers-or-default',
+                       'observers field %s is %s: an empty list given by the caller is replaced by a private one' % (f, show(v_)[:80]))
+            elif (v_[0] == 'call' and v_[1] in (('b', 'list'), ('b', 'tuple')) and any(x == ('p', 'observers') for x in walk(v_))) or v_[0] in ('listcomp', 'gen'):
+                rep.ob('F6: the worker keeps the list of observers it was given (a default only when none was given, not when it is empty)', False, W(d['node']), 'TokenizerWorker.__init__:observers-copied',
+                       'observers field %s is %s: a copy, observers added to the caller\'s list before start_all() are not notified' % (f, show(v_)[:80]))
     notify = None
     tl = cx.leaves_dyn(trun)
     ntr = 0
